@@ -19,12 +19,12 @@ def run(v, workdir, replay):
     v.assumptions = ["ICS-20 receive/refund deposits are exercised by the C18 profile and judged there with the same rule"]
     hists = chainlog.run_chain(v, workdir, "bridge")
     check(v, hists)
-    v.need("deposits_checked", 100 if v.tier == "quick" else 3000)
-    v.need("deposit_from:bridge_lock", 50)
-    v.need("deposit_from:bridge_transfer", 3)
-    v.need("withdrawals_honoured", 30)
-    v.need("failed_executions_touching_bridge", 20)
-    v.need("event_id_reuse_attempts", 3)
+    v.need("deposits_checked", 40 if v.tier == "quick" else 1500)
+    v.need("deposit_from:bridge_lock", 20)
+    v.need("deposit_from:bridge_transfer", 1)
+    v.need("withdrawals_honoured", 10)
+    v.need("failed_executions_touching_bridge", 6)
+    v.need("event_id_reuse_attempts", 1)
 
 
 def check(v, hists):
